@@ -77,6 +77,12 @@ CLAIMS.update({
                 design="7/C18", technique="Coq proof (state machine around an optimiser oracle; projection and loss lemmas) + exact trace replay with a scripted optimiser + fresh-model re-inference on the implementation",
                 note=NOTE_TB + " Partial as stated (finiteness; float arithmetic of Adam not modelled; first-order models and alpha learning not in the training model)."),
 })
+
+CLAIMS.update({
+    "C03": dict(text="Theorems (default alpha, every arity, weights >= 0, any bias): C03_not_tighter (every assignment satisfying all given bounds survives upward+downward, connective and every operand; And, Or, Implies), C03_and_connective_exact / C03_or_connective_exact (both ends of the connective's new interval are attained by feasible assignments: explicit witnesses on the segment between the corners of the operand box), C03_and_infeasible_contradiction (no feasible assignment => crossed bounds at the connective). Partial (named so): operand-end attainment (`C03_operands_attained_statement` is stated, not proved) and the Implies cases of exactness/infeasibility are checked on the implementation against an independent exact hull oracle.",
+                design="7/C03", technique="Coq proof (soundness lemmas + explicit segment witnesses instead of an intermediate value theorem) + exact differential correspondence + independent interval-arithmetic hull oracle on the implementation",
+                note=NOTE_TB + " Partial as stated in the claim."),
+})
 NA_REASON = "check not built yet in this round (planned: see DESIGN.md section 7); not claimed"
 checks, na = [], []
 for p in props:
